@@ -159,6 +159,7 @@ class AclMachine(Machine):
         if self.prop == "C04":
             cfg["p_group"] = w.choice([0.1, 0.25, 0.45])
             cfg["empty_ports"] = w.random() < 0.4
+            cfg["p_multi_neq"] = w.choice([0.0, 0.0, 0.6])
         if self.prop == "C19":
             cfg["port_zero"] = w.random() < 0.15
         if bias:
@@ -919,6 +920,29 @@ class AclMachine(Machine):
                            f"same action\n{self._model_text(pre)}", empty_port_top=empty_top)
             if any(p.kind == "ace" and p.action != r.action for p in pre[:i]):
                 self.probes["removed_under_deny_interleave"] += 1
+        # the skip list: a removed entry needs a covering entry above it through a pair the skip
+        # list does not exclude (judged for single-item lists, whose meaning is unambiguous)
+        skip = op.get("skip") or []
+        if removed and len(skip) == 1:
+            def ncw(a):
+                return (not a.group) and (a.cube.wildmask() & (a.cube.wildmask() + 1)) != 0
+
+            def skipped(t, r):
+                for ta, ra in ((t.src, r.src), (t.dst, r.dst)):
+                    if skip == ["addrgroup"] and (ta.group or ra.group):
+                        return True
+                    if skip == ["nc_wildcard"] and (ncw(ta) or ncw(ra)):
+                        return True
+                return False
+
+            for i in removed:
+                r = pre[i]
+                tops = [t for t in pre[:i] if t.kind == "ace" and t.action == r.action
+                        and rule_covers(t, r) in (True, None)]
+                if tops and all(skipped(t, r) for t in tops):
+                    self._fail("C17", "C17.skip-respected",
+                               f"delete_shadow(skip={skip}) removed ACE #{i} {r.den()} although "
+                               f"every covering entry above it involves a skipped address kind")
         # independent cross-check: first-match decision of witness packets unchanged
         if removed:
             survivors = [r for i, r in enumerate(pre) if i not in set(removed)]
